@@ -666,6 +666,7 @@ class ContractHooks(solvers.QuietHooks):
                                             "shape": kwargs.get("size")})
         if isinstance(callee, BoundMethod) and callee.fi.name in ("integrate", "init_extra_solver_state"):
             # validation is over: the solver has been constructed
+            self.integration_call = (callee.fi.name, list(args), dict(kwargs))
             raise SimRaise("_IntegrationStarts", "validation phase passed", node, fi)
         if isinstance(callee, BoundMethod) and callee.fi.cls is not None and callee.fi.cls.name == "SDELogqp" \
                 and callee.fi.name != "__init__":
@@ -710,11 +711,12 @@ def make_user_sde(noise_type="diagonal", sde_type="ito", B=4, d=3, m=3, methods=
 
 
 def eval_check_contract(model, sde=None, y0=None, ts=None, bm="given", method=None, adaptive=False, options=None,
-                        names=None, logqp=False, m=3, B=4, dt=None, entry=(SDEINT, "sdeint"), levy="space-time"):
+                        names=None, logqp=False, m=3, B=4, dt=None, entry=(SDEINT, "sdeint"), levy="space-time",
+                        hooks=None):
     """Abstractly evaluate the whole validation phase of sdeint / sdeint_adjoint on shape-only tensors: check_contract,
     assert_no_grad, methods.select and the solver's constructor chain run for real; integration itself is cut off."""
     fi = model.func(*entry)
-    hooks = ContractHooks()
+    hooks = hooks or ContractHooks()
     it = Interp(model, hooks)
     sde = sde or make_user_sde()
     y0 = TObj((4, 3), "y0") if y0 is None else y0
